@@ -179,7 +179,7 @@ func init() {
 	reg("(*sync.RWMutex).Unlock", unlock)
 	reg("(*sync.RWMutex).RLock", func(w *World, th *Thread, fn *ssa.Function, args []Value) Value {
 		so := w.syncObjFor(args[0].(Ptr), "mutex")
-		if !w.visible(th, &pendingOp{kind: opRLock, so: so, desc: "RWMutex.RLock"}) {
+		if !w.visible(th, &pendingOp{kind: opRLock, so: so, reader: true, desc: "RWMutex.RLock"}) {
 			return blocked
 		}
 		so.readers++
@@ -188,7 +188,7 @@ func init() {
 	})
 	reg("(*sync.RWMutex).RUnlock", func(w *World, th *Thread, fn *ssa.Function, args []Value) Value {
 		so := w.syncObjFor(args[0].(Ptr), "mutex")
-		if !w.visible(th, &pendingOp{kind: opYield, so: so, desc: "RWMutex.RUnlock"}) {
+		if !w.visible(th, &pendingOp{kind: opYield, so: so, reader: true, desc: "RWMutex.RUnlock"}) {
 			return blocked
 		}
 		if so.readers <= 0 {
@@ -273,7 +273,7 @@ func init() {
 			w.acquire(th, co.vc)
 			return nil
 		}
-		if !w.visible(th, &pendingOp{kind: opYield, so: mu, desc: "Cond.Wait(enter)"}) {
+		if !w.visible(th, &pendingOp{kind: opYield, so: mu, so2: co, desc: "Cond.Wait(enter)"}) {
 			return blocked
 		}
 		if !mu.locked {
@@ -724,6 +724,7 @@ func init() {
 	registerTimeIntrinsics(reg)
 	registerContextIntrinsics(reg)
 	registerStringIntrinsics(reg)
+	registerViperIntrinsics(reg)
 	_ = unicode.IsSpace
 	_ = sort.Ints
 }
